@@ -86,6 +86,12 @@ OnePairs(B) == LET f == FoldLeft(LAMBDA acc, run :
                             <<<< >>, 0>>, B.runs)
                IN f[1]
 
+\* what the run iterator yields: <<start, len, offset after, rank after, rank_zero after>> per maximal run
+RunItems(B) == FoldLeft(LAMBDA acc, run :
+                   LET cum == (IF Len(acc) = 0 THEN 0 ELSE acc[Len(acc)][4]) + RLen(run) IN
+                   Append(acc, <<RStart(run), RLen(run), REnd(run), cum, REnd(run) - cum>>),
+                 << >>, B.runs)
+
 ----------------------------------------------------------------------------
 (* Bit-sequence representation (independent definitions) *)
 
